@@ -60,9 +60,9 @@ theorem H_iter {J : PS → Prop} {f : β → M (Sum β γ)} {Q : γ → PS → P
 
 /-! ## The weak shape -/
 
-/-- the child counts of a raw tree (`Reduce.okRaw`), except that an ExprCond may have a single child -/
+/-- the child counts of a raw tree (`Reduce.okRaw`) -/
 def shapeW (t : NT) (k : Nat) : Bool :=
-  Reduce.shapeOk t.toNat k || ((t == .alternate || t == .concatenate) && k == 0) || (t == .exprCond && k == 1)
+  Reduce.shapeOk t.toNat k || ((t == .alternate || t == .concatenate) && k == 0)
 
 mutual
 def shp : RNode → Bool
@@ -296,12 +296,18 @@ theorem inv_addAlternate : H TreeInv addAlternate (fun _ => TreeInv) := by
       by rw [addChild_kids]; exact shps_append hi.1.ak (shps_single hc), hi.1.gt, hi.1.gk, hi.1.gz⟩, hi.2⟩
 
 theorem groupT_shape1 {t : NT} (h : GroupT t = true) (hc : isCond t = false) : shapeW t 1 = true := by
-  cases t <;> first | rfl | (simp [GroupT] at h) | (simp [isCond] at hc)
+  cases t <;> first | rfl | (simp [isCond] at hc; done) | (simp [GroupT] at h; done)
 
-/-- `addGroup`: the closed group becomes the unit; the frames are untouched -/
-theorem inv_addGroup : H TreeInv addGroup (fun _ => TreeInvW) := by
+/-- the group under construction is not an ExprCond that still waits for its condition -/
+def NP (s : PS) : Prop := ¬(s.group.t = .exprCond ∧ s.group.kids = [])
+
+/-- `addGroup`: the closed group becomes the unit; the frames are untouched.  (An ExprCond must have received its
+    condition: `NP`.) -/
+theorem inv_addGroup : H (fun s => TreeInv s ∧ NP s) addGroup (fun _ => TreeInvW) := by
   unfold H
-  intro s a s' hi hm
+  intro s a s' hi' hm
+  have hnp := hi'.2
+  have hi := hi'.1
   unfold addGroup at hm
   have hc := shp_reverseLeft hi.1.ct hi.1.ck
   split at hm
@@ -326,8 +332,8 @@ theorem inv_addGroup : H TreeInv addGroup (fun _ => TreeInvW) := by
           have : s.group.kids.length + 1 ≤ 3 := hlen.2
           unfold shapeW Reduce.shapeOk
           rcases Nat.lt_or_ge s.group.kids.length 1 with h0 | h0
-          · have : s.group.kids.length = 0 := by omega
-            rw [this]; rfl
+          · exfalso
+            exact hnp ⟨hcond, List.eq_nil_of_length_eq_zero (by omega)⟩
           · rcases Nat.lt_or_ge s.group.kids.length 2 with h1 | h1
             · have : s.group.kids.length = 1 := by omega
               rw [this]; rfl
@@ -365,7 +371,7 @@ theorem inv_addGroup : H TreeInv addGroup (fun _ => TreeInvW) := by
 
 /-- `popGroup`: the frame on top becomes the group under construction (an ExprCond without children takes the unit as
     its condition) -/
-theorem inv_popGroup : H TreeInvW popGroup (fun _ => TreeInv) := by
+theorem inv_popGroup : H TreeInvW popGroup (fun _ s' => TreeInv s' ∧ NP s') := by
   unfold H
   intro s a s' hi hm
   unfold popGroup at hm
@@ -383,13 +389,23 @@ theorem inv_popGroup : H TreeInvW popGroup (fun _ => TreeInv) := by
       · rename_i u hu
         cases hm
         simp only [Bool.and_eq_true, beq_iff_eq] at hec
-        refine ⟨⟨hfr.ct, hfr.ck, hfr.at_, hfr.ak, by rw [addChild_t]; exact hfr.gt,
-          by rw [addChild_kids]; exact shps_append hfr.gk (shps_single (hi.1 u hu)), ?_⟩, ⟨(fun _ hx => nomatch hx), hrest⟩⟩
-        intro h
-        rw [addChild_t, hec.1] at h
-        cases h
-    · cases hm
-      exact ⟨hfr, ⟨hi.1, hrest⟩⟩
+        refine ⟨⟨⟨hfr.ct, hfr.ck, hfr.at_, hfr.ak, by rw [addChild_t]; exact hfr.gt,
+          by rw [addChild_kids]; exact shps_append hfr.gk (shps_single (hi.1 u hu)), ?_⟩, ⟨(fun _ hx => nomatch hx), hrest⟩⟩, ?_⟩
+        · intro h
+          rw [addChild_t, hec.1] at h
+          cases h
+        · intro hnp
+          have := hnp.2
+          dsimp only at this
+          rw [addChild_kids] at this
+          simp at this
+    · rename_i hec
+      cases hm
+      refine ⟨⟨hfr, ⟨hi.1, hrest⟩⟩, ?_⟩
+      intro hnp
+      apply hec
+      dsimp only at hnp ⊢
+      simp [hnp.1, hnp.2]
 
 theorem inv_pushGroup : H TreeInv pushGroup (fun _ => TreeInv) := by
   unfold pushGroup
@@ -551,5 +567,172 @@ theorem inv_stepLiteral (sp ep : Nat) (isQ wp0 : Bool) : H TreeInv (stepLiteral 
   unfold stepLiteral
   inv_run
   all_goals exact inv_setUnit (shp_leaf (leaf_nodeCh E _ rfl _ _))
+
+/-! ## The group under construction is left alone by everything but the group operations -/
+
+/-- `m` keeps the group under construction -/
+def GP (m : M α) : Prop := ∀ s a s', m s = .ok a s' → s'.group = s.group
+
+theorem GP.bind' {m : M α} {f : α → M β} (h1 : GP m) (h2 : ∀ a, GP (f a)) : GP (m >>= f) := by
+  intro s b s' hm
+  change M.bind m f s = _ at hm
+  unfold M.bind at hm
+  cases hr : m s with
+  | ok a s1 => rw [hr] at hm; exact (h2 a s1 b s' hm).trans (h1 s a s1 hr)
+  | err c s1 => rw [hr] at hm; cases hm
+  | fault x => rw [hr] at hm; cases hm
+  | fuel => rw [hr] at hm; cases hm
+theorem GP.pure' {a : α} : GP (pure a : M α) := by
+  intro s b s' hm
+  change M.pure a s = _ at hm
+  unfold M.pure at hm
+  cases hm; rfl
+theorem GP.throw' {c : ErrCode} : GP (throw c : M α) := by intro s b s' hm; cases hm
+theorem GP.fault' {f : Fault} : GP (fault f : M α) := by intro s b s' hm; cases hm
+theorem GP.ite' {c : Prop} [Decidable c] {m1 m2 : M α} (h1 : GP m1) (h2 : GP m2) : GP (if c then m1 else m2) := by
+  split
+  · exact h1
+  · exact h2
+theorem GP.modify' {f : PS → PS} (h : ∀ s, (f s).group = s.group) : GP (modify f) := by
+  intro s a s' hm
+  unfold modify at hm
+  cases hm
+  exact h s
+theorem GP.of_frame {m : M α} (h : ∀ s a s', m s = .ok a s' → s'.frame = s.frame) : GP m := by
+  intro s a s' hm
+  have := h s a s' hm
+  simp only [PS.frame, Prod.mk.injEq] at this
+  exact this.2.2.2.1
+
+theorem gp_scanBlank : GP (scanBlank E) := by
+  intro s a s' hm; unfold scanBlank at hm; simp only [] at hm; split at hm <;> cases hm; rfl
+theorem gp_isTrueQuantifier : GP (isTrueQuantifier E) := by
+  intro s a s' hm; unfold isTrueQuantifier at hm; split at hm <;> cases hm <;> rfl
+theorem gp_scanDecimal : GP (scanDecimal E) := by
+  intro s a s' hm; unfold scanDecimal at hm; simp only [] at hm; split at hm <;> cases hm; rfl
+theorem gp_charsRight : GP (charsRight E) := by intro s a s' hm; unfold charsRight at hm; cases hm; rfl
+theorem gp_textpos : GP textpos := by intro s a s' hm; unfold textpos at hm; cases hm; rfl
+theorem gp_opts : GP opts := by intro s a s' hm; unfold opts at hm; cases hm; rfl
+theorem gp_textto (p : Nat) : GP (textto p) := by unfold textto; exact GP.modify' (fun _ => rfl)
+theorem gp_moveRight (i : Nat) : GP (moveRight i) := by unfold moveRight; exact GP.modify' (fun _ => rfl)
+theorem gp_moveLeft : GP moveLeft := by intro s a s' hm; unfold moveLeft at hm; split at hm <;> cases hm; rfl
+theorem gp_rightChar (i : Nat) : GP (rightChar E i) := by
+  intro s a s' hm; unfold rightChar at hm; split at hm <;> cases hm; rfl
+theorem gp_charAt (i : Nat) : GP (charAt E i) := by
+  intro s a s' hm; unfold charAt at hm; split at hm <;> cases hm; rfl
+theorem gp_get : GP get := by intro s a s' hm; unfold get at hm; cases hm; rfl
+theorem gp_popOptions : GP popOptions := by intro s a s' hm; unfold popOptions at hm; split at hm <;> cases hm; rfl
+theorem gp_popKeepOptions : GP popKeepOptions := by
+  intro s a s' hm; unfold popKeepOptions at hm; split at hm <;> cases hm; rfl
+theorem gp_pushOptions : GP pushOptions := by unfold pushOptions; exact GP.modify' (fun _ => rfl)
+theorem gp_setUnit (u : Option RNode) : GP (setUnit u) := by unfold setUnit; exact GP.modify' (fun _ => rfl)
+theorem gp_addConcatenate : GP addConcatenate := by
+  intro s a s' hm; unfold addConcatenate at hm; split at hm <;> cases hm; rfl
+theorem gp_addConcatenate3 (lazy : Bool) (mn mx : Nat) : GP (addConcatenate3 lazy mn mx) := by
+  intro s a s' hm; unfold addConcatenate3 at hm; split at hm <;> cases hm; rfl
+theorem gp_addToConcatenate (pos cch : Nat) : GP (addToConcatenate E pos cch) := by
+  intro s a s' hm
+  unfold addToConcatenate at hm
+  split at hm
+  · cases hm; rfl
+  · split at hm
+    · cases hm
+    · simp only [] at hm
+      split at hm
+      · cases hm; rfl
+      · split at hm <;> (cases hm; rfl)
+
+/-- what keeps the group keeps `NP` -/
+theorem np_of_gp {m : M α} (h : GP m) : H NP m (fun _ => NP) := by
+  unfold H
+  intro s a s' hp hm
+  unfold NP at *
+  rw [h s a s' hm]
+  exact hp
+
+/-- the invariant together with `NP` -/
+def TN (s : PS) : Prop := TreeInv s ∧ NP s
+
+theorem tn_of {m : M α} (h1 : H TreeInv m (fun _ => TreeInv)) (h2 : GP m) : H TN m (fun _ => TN) :=
+  H_and (H.conseq h1 (fun _ h => h.1) (fun _ _ h => h)) (H.conseq (np_of_gp h2) (fun _ h => h.2) (fun _ _ h => h))
+
+/-- `addAlternate` gives a conditional group a child and leaves any other group alone -/
+theorem np_addAlternate : H NP addAlternate (fun _ => NP) := by
+  unfold addAlternate
+  apply H_modify
+  intro s hnp
+  unfold NP at *
+  dsimp only
+  split
+  · intro h
+    have := h.2
+    dsimp only at this
+    rw [addChild_kids] at this
+    simp at this
+  · exact hnp
+
+attribute [local irreducible] GP
+
+syntax "gp_run" : tactic
+macro_rules
+  | `(tactic| gp_run) => `(tactic| repeat' (first
+      | exact GP.pure'
+      | exact GP.throw'
+      | exact GP.fault'
+      | exact gp_scanBlank _
+      | exact gp_isTrueQuantifier _
+      | exact gp_scanDecimal _
+      | exact gp_charsRight _
+      | exact gp_textpos
+      | exact gp_opts
+      | exact gp_textto _
+      | exact gp_moveRight _
+      | exact gp_moveLeft
+      | exact gp_rightChar _ _
+      | exact gp_charAt _ _
+      | exact gp_get
+      | exact gp_popOptions
+      | exact gp_setUnit _
+      | exact gp_addConcatenate
+      | exact gp_addConcatenate3 _ _ _
+      | exact gp_addToConcatenate _ _ _
+      | (apply GP.ite')
+      | (apply GP.bind')
+      | intro _
+      | split))
+
+theorem gp_moveRightGetChar : GP (moveRightGetChar E) := by unfold moveRightGetChar; gp_run
+theorem gp_nextIs (c : Nat) : GP (nextIs E c) := by unfold nextIs; gp_run
+theorem gp_quantMax (sp mn : Nat) : GP (quantMax E sp mn) := by
+  unfold quantMax orM rcIs
+  gp_run
+  all_goals first | exact gp_nextIs E _
+theorem gp_quantClosed (sp : Nat) : GP (quantClosed E sp) := by
+  unfold quantClosed
+  gp_run
+  all_goals exact gp_moveRightGetChar E
+theorem gp_quantBrace : GP (quantBrace E) := by
+  unfold quantBrace
+  gp_run
+  all_goals first | exact gp_quantMax E _ _ | exact gp_quantClosed E _
+theorem gp_quantBounds (ch : Nat) : GP (quantBounds E ch) := by
+  unfold quantBounds
+  gp_run
+  all_goals exact gp_quantBrace E
+theorem gp_quantApply (mn mx : Nat) : GP (quantApply E mn mx) := by
+  unfold quantApply
+  gp_run
+  all_goals exact gp_nextIs E _
+theorem gp_scanQuantifier (ch : Nat) : GP (scanQuantifier E ch) := by
+  unfold scanQuantifier
+  gp_run
+  all_goals first | exact gp_quantBounds E _ | exact gp_quantApply E _ _
+theorem gp_stepAfter (b : Bool) : GP (stepAfter E b) := by
+  unfold stepAfter
+  gp_run
+  all_goals first | exact gp_moveRightGetChar E | exact gp_scanQuantifier E _
+theorem gp_stepLiteral (sp ep : Nat) (isQ wp0 : Bool) : GP (stepLiteral E sp ep isQ wp0) := by
+  unfold stepLiteral
+  gp_run
 
 end RegexVerif.Parser
